@@ -4,3 +4,4 @@ pub mod frontends;
 pub mod frontends_cli;
 pub mod hierarchy;
 pub mod policyset;
+pub mod storagefaults;
